@@ -173,6 +173,12 @@ def gen_labels(pid, tier, rng):
         q.steps[0].update({'seq': seq, 'setid': sid})
         q.write(1)
         progs.append(q.build())
+        # ... and with a ready-made StorageUnitLabel instance
+        q = Prog(f'{pid}-label-obj-{i}', {'kind': 'label-obj'})
+        simple_file(q, rng, vrl=[128, 1024, 256, 64, 512, 20][i % 6], nchan=3, rows=4, widths=[None, 40, 3])
+        q.steps[0].update({'seq': seq, 'setid': sid, 'label': 'ready'})
+        q.write(1)
+        progs.append(q.build())
     return progs
 
 
@@ -324,6 +330,26 @@ def gen_C16(tier, seed):
                     p.nofmt(lf, rng.choice(nfs), pl, kind=kind)
                 p.write(1, out_chunk=max(vrl, 1024))
                 progs.append(p.build())
+    # payloads replaced after the record was added (before the first write, between two writes), bytearrays changed in place
+    for i in range(6 if tier == 'quick' else 40):
+        p = Prog(f'C16-replace-{i}', {'kind': 'nofmt-replace'})
+        p.file(1, vrl=[64, 8192][i % 2])
+        lf = p.lf(1, fh_id='NOFMT-REPLACE')
+        p.origin(lf, name='O')
+        c = p.channel(lf, 'CHANNEL-A', data=np.arange(3, dtype='float64'))
+        p.frame(lf, 'FRAME-A', [c])
+        nf = p.add(lf, 'no_format', 'N', consumer_name=S('SOMEONE'))
+        kinds = ['bytes', 'str', 'bytearray']
+        for j in range(3):
+            p.nofmt(lf, nf, bytes(rng.randint(0, 127) for _ in range(rng.choice([0, 5, 13, 70]))), kind=kinds[(i + j) % 3])
+        if i % 3 != 1:
+            p.nofmt_replace(1 + i % 3, bytes(rng.randint(0, 127) for _ in range(rng.choice([1, 9, 12, 200]))), kind=kinds[i % 3])
+        p.write(1, fname='first.dlis', out_chunk=8192)
+        p.nofmt_replace(2, bytes(rng.randint(0, 127) for _ in range(rng.choice([0, 3, 11, 57]))), kind=kinds[(i + 1) % 3])
+        if i % 2:
+            p.nofmt_replace(3, b'', kind='bytes')
+        p.write(1, fname='second.dlis', out_chunk=8192)
+        progs.append(p.build())
     # non-ASCII text payload: must not be written unfaithfully
     p = Prog('C16-nonascii', {'kind': 'nofmt-nonascii'})
     p.file(1, vrl=64)
